@@ -341,6 +341,9 @@ public:
         Matrix XAR, RAR, XBR, gramA, gramB, eVecX, eVecR, eVecD;
         std::vector<int> columnsToDelete;
 
+        // The status always describes this call
+        m_info = Eigen::NoConvergence;
+
         if (flag_with_constraints)
         {
             // Apply the constraints Y to X
